@@ -107,9 +107,10 @@ def cases(tier, seed):
     # N=5 is the smallest size at which a restart can beat the identity start without a single accepted step (star-like graphs): every first
     # answer x the rotations and the reversal as second answer
     if tier == "thorough":
-        for m in _sym(5, [0.0, 1.0]):
-            yield {"family": "answers", "M": m, "depth": 2, "second": "rotations", "seed": seed}
-    else:
+        for k, m in enumerate(_sym(5, [0.0, 1.0])):
+            if k % 4 == 1:  # 256 of the 1024 graphs (about 45 ms per call, 720 calls each)
+                yield {"family": "answers", "M": m, "depth": 2, "second": "rotations", "seed": seed}
+    if True:
         # quick: the hub graphs among them (every inner hub position - with the hub at an end the original bandwidth is already the largest
         # possible, nothing can exceed it - and no or one extra edge between leaves)
         for hub in (1, 2, 3):
